@@ -54,6 +54,7 @@ type Exec struct {
 	// hooks
 	OnMakeClosure func(f *Frame, st *State, mc *ssa.MakeClosure, c *Closure)
 	OnFuncValue   func(f *Frame, st *State, v *ssa.Function) // a function literal without captured variables is boxed
+	OnTopReturn   func(f *Frame, r exitRec)                  // a normal return of the function under verification
 	InlineAll     bool
 	lib           map[string]*libFn
 	strAx         bool
